@@ -323,7 +323,7 @@ void rec_reset(void);
 /* nesting chains (C01 deep stage, C19) */
 #define CH_HEAVY_BYTES ((size_t)2 << 20)
 #define CH_HEAVY_MEMBERS ((size_t)400000)
-enum { CH_TAG, CH_DEFARR, CH_INDEFARR, CH_DEFMAP_KEY, CH_DEFMAP_VAL, CH_INDEFMAP_KEY, CH_INDEFMAP_VAL, CH_MIXED, CH_TAG_WIDE, CH_DEFARR_LAST_OF_3, CH_INDEFMAP_2ND_VALUE, CH_SELFDESCRIBED_ARRAYS, CH_TAG24_ARRAYS, CH_NKINDS };
+enum { CH_TAG, CH_DEFARR, CH_INDEFARR, CH_DEFMAP_KEY, CH_DEFMAP_VAL, CH_INDEFMAP_KEY, CH_INDEFMAP_VAL, CH_MIXED, CH_TAG_WIDE, CH_DEFARR_LAST_OF_3, CH_INDEFMAP_2ND_VALUE, CH_SELFDESCRIBED_ARRAYS, CH_TAG24_ARRAYS, CH_DEEP_THEN_SIBLING, CH_NKINDS };
 extern const char* const chain_names[CH_NKINDS];
 /* leaf: 0 scalar, 1 chunked byte string, 2 chunked text string (each one more open level),
  * 3 empty definite array, 4 empty definite map (complete at their head: no additional level).
